@@ -10,7 +10,7 @@ import tlc
 import bacpypes.core as core
 from bacpypes.comm import bind, Server
 from bacpypes.pdu import Address, PDU
-from bacpypes.apdu import APDU, ReadPropertyRequest
+from bacpypes.apdu import APDU, ReadPropertyRequest, ReadPropertyACK, WhoIsRequest
 from bacpypes.app import Application, ApplicationIOController
 from bacpypes.appservice import StateMachineAccessPoint, ApplicationServiceAccessPoint, SSM
 from bacpypes.local.device import LocalDeviceObject
@@ -73,6 +73,7 @@ class Rig:
         self.net = []
         self.frame_no = 0
         self.iocbs = []
+        self.asked = []         # per IOCB: the property a confirmed request reads (None: an unconfirmed request)
         self.cb = []
         self.evs = []
         self.errors = []
@@ -92,20 +93,38 @@ class Rig:
             act.append((self.iocbs.index(sq.active_iocb) + 1) if (sq and sq.active_iocb in self.iocbs) else 0)
             pend.append([self.iocbs.index(x[1]) + 1 for x in sq.ioQueue.queue] if sq else [])
             qex.append(sq is not None)
-            trig.append(sum(1 for fn, args, kw in core.deferredFns if fn is IOQController._trigger and sq is not None and args and args[0] is sq))
+            # (the queue object may already be forgotten by queue_by_address: the deferred call still names its address)
+            trig.append(sum(1 for fn, args, kw in core.deferredFns if fn is IOQController._trigger and args
+                            and getattr(args[0], "address", None) == Address(d)))
         residue = dict(ct=len(self.c.smap.clientTransactions), st=sum(len(s.smap.serverTransactions) for s in self.servers.values()),
                        timers=len(vt.tm.tasks), deferred=len(core.deferredFns), net=len(self.net))
-        return dict(now=int(round(vt.now * 1000)), st=st, cb=list(self.cb), active=act, pend=pend, qexists=qex, trig=trig, residue=residue)
+        return dict(now=int(round(vt.now * 1000)), st=st, cb=list(self.cb), active=act, pend=pend, qexists=qex, trig=trig, residue=residue,
+                    match=[self.match(i, a) for i, a in zip(self.iocbs, self.asked)])
 
-    def log(self, op, k=0, d=0, exc=""):
-        self.evs.append(dict(op=op, k=k, d=d, exc=exc, s=self.snapshot()))
+    @staticmethod
+    def match(iocb, asked):
+        """what a finished IOCB holds: the answer to its own request ("own"), to another one ("other"), an error / reject /
+        abort ("err"), nothing ("none"); "" while it is not finished"""
+        if iocb.ioState not in (3, 4):
+            return ""
+        if iocb.ioError is not None:
+            return "err"
+        r = iocb.ioResponse
+        if r is None:
+            return "none"
+        if isinstance(r, ReadPropertyACK) and r.propertyIdentifier == asked and r.objectIdentifier == ("analogValue", 1):
+            return "own"
+        return "other"
 
-    def guarded(self, fn, *a):
+    def log(self, op, k=0, d=0, exc="", u=False):
+        self.evs.append(dict(op=op, k=k, d=d, exc=exc, u=u, s=self.snapshot()))
+
+    def guarded(self, fn, *a, drain=True):
         try:
             with watchdog(10):
                 fn(*a)
                 n = 0
-                while core.deferredFns and n < 1000:
+                while drain and core.deferredFns and n < 1000:
                     core.run_once()
                     n += 1
         except Hang:
@@ -119,26 +138,49 @@ class Rig:
             return self.errors[-1]
         return ""
 
-    def request(self, d):
-        req = ReadPropertyRequest(objectIdentifier=("analogValue", 1), propertyIdentifier="presentValue", destination=Address(d))
-        iocb = IOCB(req)
+    PROPS = ["presentValue", "objectName", "objectIdentifier", "statusFlags", "units"]
+
+    def direct(self, d):
+        """an unconfirmed request sent without an IOCB (ApplicationIOController.request)"""
+        exc = self.guarded(self.c.app.request, WhoIsRequest(destination=Address(d)), drain=False)
+        self.log("direct", 0, self.dests.index(d) + 1, exc)
+        self.drain()
+
+    def drain(self):
+        """the deferred calls a request left behind (IOQController._trigger), as a step of their own"""
+        if core.deferredFns:
+            exc = self.guarded(lambda: None)
+            self.log("run", 0, 0, exc)
+
+    def request(self, d, kind="c"):
         k = len(self.iocbs)
+        if kind == "d":
+            return self.direct(d)
+        if kind == "u":
+            req, asked = WhoIsRequest(destination=Address(d)), None
+        else:
+            asked = self.PROPS[k % len(self.PROPS)]       # consecutive requests differ: an answer tells which one it answers
+            req = ReadPropertyRequest(objectIdentifier=("analogValue", 1), propertyIdentifier=asked, destination=Address(d))
+        iocb = IOCB(req)
         self.iocbs.append(iocb)
+        self.asked.append(asked)
         self.cb.append(0)
 
         def done(i, k=k):
             self.cb[k] += 1
         iocb.add_callback(done)
-        exc = self.guarded(self.c.app.request_io, iocb)
-        self.log("request", k + 1, self.dests.index(d) + 1, exc)
+        exc = self.guarded(self.c.app.request_io, iocb, drain=False)
+        self.log("request", k + 1, self.dests.index(d) + 1, exc, u=(kind == "u"))
+        self.drain()
 
     def run(self, plan, faults, rng=None, limit=4000):
-        """plan: list of (time_ms, dest) requests; faults: {frame number: 'drop'|'dup'|'delay'}"""
-        plan = sorted(plan)
+        """plan: list of (time_ms, dest[, kind]) requests -- kind "c" confirmed through an IOCB (default), "u" unconfirmed
+        through an IOCB, "d" unconfirmed without one; faults: {frame number: 'drop'|'dup'|'delay'}"""
+        plan = sorted(tuple(p) for p in plan)
         faults = dict(faults)
         for _ in range(limit):
             if plan and plan[0][0] <= vt.now * 1000:
-                self.request(plan.pop(0)[1])
+                self.request(*plan.pop(0)[1:])
                 continue
             due_frames = [i for i, f in enumerate(self.net) if f[1] <= vt.now]
             due_timers = sorted(e for e in vt.tm.tasks if e[0] <= vt.now)
@@ -190,6 +232,7 @@ Pad(s, dflt) == [k \\in K |-> IF k <= Len(s) THEN s[k] ELSE dflt]
 TInit == Init /\\ tid \\in 1..Len(Traces) /\\ l = 1 /\\ rej = 0 /\\ viol = {}
 Bind(e) == /\\ st' = Pad(e.s.st, "idle") /\\ cb' = Pad(e.s.cb, 0)
            /\\ dest' = IF e.op = "request" THEN [dest EXCEPT ![e.k] = e.d] ELSE dest
+           /\\ unc' = IF e.op = "request" THEN [unc EXCEPT ![e.k] = e.u] ELSE unc
            /\\ active' = [d \\in D |-> e.s.active[d]] /\\ pend' = [d \\in D |-> e.s.pend[d]]
            /\\ trig' = [d \\in D |-> e.s.trig[d]] /\\ qexists' = [d \\in D |-> e.s.qexists[d]]
            /\\ act' = [op |-> e.op, k |-> e.k, d |-> e.d]
@@ -200,6 +243,14 @@ Failing(e) ==
     (IF OneActivePerDestination' THEN {} ELSE {"OneActivePerDestination"}) \\cup
     (IF PendingAreQueued' THEN {} ELSE {"NoResidue"}) \\cup
     (IF A_Monotone THEN {} ELSE {"AtMostOneOutcome"}) \\cup
+    \\* handing something else down (with or without an IOCB) completes no confirmed request that is in progress
+    (IF e.op \\in {"request", "direct"} /\\ ~(\\A k \\in K : (~unc[k] /\\ st[k] \\in {"pending", "active"}) =>
+                                                   (st'[k] = st[k] \\/ (st[k] = "pending" /\\ st'[k] = "active")))
+        THEN {"OutcomeOnlyFromReply"} ELSE {}) \\cup
+    \\* what a finished confirmed request holds is the answer to that very request (or an error / reject / abort)
+    (IF \\A k \\in K : (k <= Len(e.s.match) /\\ ~unc'[k] /\\ st'[k] \\in {"completed", "aborted"}) =>
+                        e.s.match[k] = (IF st'[k] = "completed" THEN "own" ELSE "err")
+        THEN {} ELSE {"OutcomeOnlyFromReply"}) \\cup
     (IF e.op = "livelock" THEN {"Terminates"} ELSE {}) \\cup
     \\* end of run: every IOCB has its one outcome and nothing is left in the queues, the stacks, the heap
     (IF AtEnd /\\ e.op # "livelock" /\\ ~(\\A k \\in K : dest'[k] # 0 => (st'[k] \\in {"completed", "aborted"} /\\ cb'[k] = 1))
@@ -210,7 +261,8 @@ Failing(e) ==
 Step == /\\ l <= Len(T)
         /\\ LET e == T[l] IN
             /\\ Bind(e)
-            /\\ rej' = IF rej = 0 /\\ e.op = "request" /\\ ~ENABLED (Request(e.k, e.d) /\\ Bind(e)) THEN l ELSE rej
+            /\\ rej' = IF rej = 0 /\\ ((e.op = "request" /\\ ~ENABLED (Request(e.k, e.d, e.u) /\\ Bind(e)))
+                                    \\/ (e.op = "direct" /\\ ~ENABLED (Direct(e.d) /\\ Bind(e)))) THEN l ELSE rej
             /\\ viol' = viol \\cup {<<m, l>> : m \\in {x \\in Failing(e) : \\A v \\in viol : v[1] # x}}
         /\\ l' = l + 1 /\\ UNCHANGED tid
 Done_ == /\\ l = Len(T) + 1
@@ -232,7 +284,8 @@ def record(dests, plan, faults, seed=None, retries=1):
                 n=len(rig.iocbs), applied=rig.applied)
 
 
-def validate(chk, traces):
+def validate(chk, traces, only=None, rename=None):
+    """only: report just these monitors; rename: monitor name -> name under which the calling check reports it"""
     if not traces:
         return
     wd = tlc.workdir("ioq")
@@ -260,9 +313,11 @@ def validate(chk, traces):
                "concurrent": len(t["plan"])}
         if t["hang"]:
             chk.violation("Terminates", sig, {"what": "IOCB path did not return", "plan": t["plan"], "faults": t["faults"]}, rp)
+        if only is not None:
+            v = dict(v, viol=[x for x in v["viol"] if x[0] in only])
         for m, l in sorted(v["viol"]):
             e = t["evs"][l - 1]
-            chk.violation(m, sig, {"path": "iocb", "step": l, "event": e["op"], "state": e["s"], "plan": t["plan"], "faults": t["faults"],
+            chk.violation((rename or {}).get(m, m), sig, {"path": "iocb", "step": l, "event": e["op"], "state": e["s"], "plan": t["plan"], "faults": t["faults"],
                                    "errors": t["errors"]}, rp)
         if not v["viol"] and v["rej"]:
             chk.deviation({"path": "iocb", "step": v["rej"], "state": t["evs"][v["rej"] - 1]["s"], "plan": t["plan"]})
@@ -279,6 +334,7 @@ INVARIANT PendingAreQueued
 INVARIANT NoStall
 INVARIANT NoResidue
 PROPERTY Monotone
+PROPERTY OutcomeOnlyFromReply
 PROPERTY EventuallyAllDone
 CHECK_DEADLOCK FALSE
 """
@@ -300,10 +356,18 @@ def run(chk, rng, thorough):
         for n in range(1, nframes + 1):
             for kind in ("drop", "dup", "delay"):
                 traces.append(record(dests, plan, {n: kind}))
+    # unconfirmed requests -- through an IOCB and without one -- while confirmed requests to the same / another address are
+    # in flight or queued
+    for plan in USHAPES:
+        base = record(dests, plan, {})
+        traces.append(base)
+        for n in range(1, 2 * len(plan) + 3):
+            for kind in ("drop", "dup", "delay"):
+                traces.append(record(dests, plan, {n: kind}))
     # every request unanswered (silence): all retries, local abort, queue must advance
     traces.append(record(dests, [(0, 2), (0, 2), (0, 3)], {n: "drop" for n in range(1, 60)}))
     for i in range(300 if thorough else 40):
-        plan = [(rng.choice([0, 0, 1, 2000, 3000, 6500]), rng.choice(dests)) for _ in range(rng.randint(1, 6))]
+        plan = [(rng.choice([0, 0, 1, 2000, 3000, 6500]), rng.choice(dests), rng.choice("ccccud")) for _ in range(rng.randint(1, 6))]
         faults = {rng.randint(1, 30): rng.choice(["drop", "dup", "delay"]) for _ in range(rng.randint(0, 8))}
         traces.append(record(dests, plan, faults, seed=rng.randrange(1 << 30), retries=rng.randint(0, 2)))
     for i, t in enumerate(traces):
@@ -311,6 +375,31 @@ def run(chk, rng, thorough):
         chk.case(("iocb", i), nontrivial=bool(t["faults"]) or len(t["plan"]) > 1)
     chk.sample({"iocb_plan": traces[-1]["plan"], "faults": traces[-1]["faults"], "final": traces[-1]["evs"][-1]["s"] if traces[-1]["evs"] else None})
     validate(chk, traces)
+    chk.extra["iocb_runs"] = len(traces)
+
+
+USHAPES = [[(0, 2, "c"), (0, 2, "d")], [(0, 2, "c"), (0, 2, "u"), (0, 2, "c")], [(0, 2, "c"), (0, 2, "c"), (0, 2, "d"), (0, 3, "d")],
+           [(0, 2, "u")], [(0, 2, "d")], [(0, 2, "c"), (0, 3, "u"), (1, 2, "d"), (2, 2, "c"), (3000, 2, "d")],
+           [(0, 2, "u"), (0, 2, "u"), (0, 2, "c"), (0, 2, "d"), (0, 2, "u")]]
+
+
+def run_reply_matching(chk, rng, n_random, only, rename):
+    """the part of the IOCB model another check (C11) relies on: several requests outstanding to one peer, unconfirmed
+    requests in between -- every finished IOCB holds the answer to its own request"""
+    traces = []
+    dests = [2, 3]
+    for plan in USHAPES:
+        traces.append(record(dests, plan, {}))
+        for n in range(1, 2 * len(plan) + 3):
+            traces.append(record(dests, plan, {n: "delay"}))
+    for i in range(n_random):
+        plan = [(rng.choice([0, 0, 1, 2, 3000]), rng.choice(dests), rng.choice("cccud")) for _ in range(rng.randint(2, 6))]
+        faults = {rng.randint(1, 20): rng.choice(["dup", "delay"]) for _ in range(rng.randint(0, 3))}
+        traces.append(record(dests, plan, faults, seed=rng.randrange(1 << 30), retries=1))
+    for i, t in enumerate(traces):
+        t["tid"] = i + 1
+        chk.case(("iocb", i), nontrivial=True)
+    validate(chk, traces, only=only, rename=rename)
     chk.extra["iocb_runs"] = len(traces)
 
 
